@@ -279,3 +279,35 @@ int ctl_fresh_guard(ctl_rd_t *rd, ctl_hdr_t *h, const void *src)
 	memcpy(rd->buffer, src, h->size);
 	return 0;
 }
+
+/* K13-trunc: a byte count narrowed to 32 bits before it sizes an allocation */
+typedef struct ctl_tbl_t {
+	unsigned int num_ids;
+	unsigned int num_blocks;
+	unsigned long *starts;
+} ctl_tbl_t;
+
+int ctl_trunc_count(ctl_tbl_t *t, unsigned int ids);
+int ctl_wide_count(ctl_tbl_t *t, unsigned int ids);
+
+int ctl_trunc_count(ctl_tbl_t *t, unsigned int ids)
+{
+	unsigned int bytes;
+
+	t->num_ids = ids;
+	bytes = t->num_ids * sizeof(unsigned long[2]);	/* wraps for ids >= 2^28 */
+	t->num_blocks = bytes / 8192 + 1;
+	t->starts = calloc(t->num_blocks, sizeof(unsigned long));
+	return t->starts == NULL ? -1 : 0;
+}
+
+int ctl_wide_count(ctl_tbl_t *t, unsigned int ids)
+{
+	size_t bytes, blocks;
+
+	t->num_ids = ids;
+	bytes = t->num_ids * sizeof(unsigned long[2]);
+	blocks = bytes / 8192 + 1;
+	t->starts = calloc(blocks, sizeof(unsigned long));
+	return t->starts == NULL ? -1 : 0;
+}
